@@ -6,6 +6,7 @@ import (
 	"io/fs"
 	"os"
 	"sort"
+	"sync"
 	"time"
 )
 
@@ -414,4 +415,76 @@ func vpModelM_os_File_Stat(f *os.File) (os.FileInfo, error) {
 		return vpFileInfo{name: fd.name, dir: true}, nil
 	}
 	return vpFileInfo{name: fd.name, size: int64(len(fd.ino.data))}, nil
+}
+
+// ---- sync.Map (harness-Go model): a list of pairs per map, found by the map's address ----
+
+type vpSyncMapState struct {
+	keys, vals []any
+}
+
+var vpSyncMaps map[*sync.Map]*vpSyncMapState
+
+func vpSyncMapOf(m *sync.Map) *vpSyncMapState {
+	if vpSyncMaps == nil {
+		vpSyncMaps = map[*sync.Map]*vpSyncMapState{}
+	}
+	s := vpSyncMaps[m]
+	if s == nil {
+		s = &vpSyncMapState{}
+		vpSyncMaps[m] = s
+	}
+	return s
+}
+
+func (s *vpSyncMapState) find(key any) int {
+	for i, k := range s.keys {
+		if k == key {
+			return i
+		}
+	}
+	return -1
+}
+
+func vpModelM_sync_Map_Store(m *sync.Map, key, value any) {
+	s := vpSyncMapOf(m)
+	if i := s.find(key); i >= 0 {
+		s.vals[i] = value
+		return
+	}
+	s.keys, s.vals = append(s.keys, key), append(s.vals, value)
+}
+
+func vpModelM_sync_Map_Load(m *sync.Map, key any) (any, bool) {
+	s := vpSyncMapOf(m)
+	if i := s.find(key); i >= 0 {
+		return s.vals[i], true
+	}
+	return nil, false
+}
+
+func vpModelM_sync_Map_LoadOrStore(m *sync.Map, key, value any) (any, bool) {
+	if v, ok := vpModelM_sync_Map_Load(m, key); ok {
+		return v, true
+	}
+	vpModelM_sync_Map_Store(m, key, value)
+	return value, false
+}
+
+func vpModelM_sync_Map_Delete(m *sync.Map, key any) {
+	s := vpSyncMapOf(m)
+	if i := s.find(key); i >= 0 {
+		s.keys = append(s.keys[:i:i], s.keys[i+1:]...)
+		s.vals = append(s.vals[:i:i], s.vals[i+1:]...)
+	}
+}
+
+func vpModelM_sync_Map_Range(m *sync.Map, f func(key, value any) bool) {
+	s := vpSyncMapOf(m)
+	keys, vals := append([]any(nil), s.keys...), append([]any(nil), s.vals...)
+	for i := range keys {
+		if !f(keys[i], vals[i]) {
+			return
+		}
+	}
 }
